@@ -656,6 +656,7 @@ func (c *caseRun) jsonChecks(asg frontend.Circuit, w witness.Witness, want []*bi
 	}
 	if docOK {
 		r.Count("json.roundtrip-ok."+dom, 1)
+		r.Count("json.roundtrip-ok."+dom+"."+sc.st.name, 1)
 	}
 	// public part only
 	pw, err := w.Public()
@@ -838,7 +839,7 @@ func TestC07(t *testing.T) {
 	}
 	nDyn := r.Pick(3000, 40000)
 	nCat := r.Pick(40, 400)
-	fieldsPerShape := r.Pick(2, len(allFields))
+	fieldsPerShape := r.Pick(len(fields), len(allFields))
 
 	type job struct {
 		st    *staticShape
@@ -869,13 +870,7 @@ func TestC07(t *testing.T) {
 		}
 		r.Count("shapes", 1)
 		for f := 0; f < fieldsPerShape; f++ {
-			var fi *fieldInfo
-			if r.Quick() {
-				// one pairing-curve scalar field and one small field per shape, rotating
-				fi = fields[(j.idx+k)%3+3*f]
-			} else {
-				fi = fields[f]
-			}
+			fi := fields[f]
 			runCase(r, sc, fi, r.Rand(j.label+"/"+fi.name))
 		}
 	})
